@@ -132,7 +132,7 @@ def occupy(rng, steps, made, pool, share=0.35):
 
 MALFORMED = ['nonsuffix', 'empty', 'truncated', 'binary', 'nonutf8', 'nopath', 'nodate', 'baddate',
              'nopayload', 'orphan', 'dir_in_info', 'infodir_named_trashinfo', 'only_header', 'crlf', 'offsetdate', 'pctnonutf8', 'pctcontrol',
-             'info_dangling_link', 'info_loop_link', 'info_link_to_dir', 'stray_dangling_link']
+             'info_dangling_link', 'info_loop_link', 'info_link_to_dir', 'stray_dangling_link', 'orphan_longname', 'nopayload_longname']
 
 
 def add_malformed(rng, steps, tdir, kind, tag, path_value=None):
@@ -202,6 +202,14 @@ def add_malformed(rng, steps, tdir, kind, tag, path_value=None):
         steps.append(['f', ip, '[Trash Info]\nPath=/home/u/w/%s\nDeletionDate=2020-01-01T00:00:00\n' % nm, 0o600])
     elif kind == 'orphan':
         steps.append(['f', fp, 'orphan', 0o644])
+    elif kind == 'orphan_longname':
+        # a payload without info whose name is so long that '<name>.trashinfo' exceeds NAME_MAX: looking that info up gives
+        # ENAMETOOLONG, not ENOENT
+        long_nm = (nm + '-' + rng.choice(['x', 'é', '日']) * 255).encode('utf-8')[:rng.randint(246, 255)].decode('utf-8', 'ignore')
+        steps.append(['f', tdir + '/files/' + long_nm, 'orphan with a long name', 0o644])
+    elif kind == 'nopayload_longname':
+        long_nm = (nm + '-' + 'y' * 255)[:245]
+        steps.append(['f', tdir + '/info/' + long_nm + '.trashinfo', '[Trash Info]\nPath=/home/u/w/%s\nDeletionDate=2020-01-01T00:00:00\n' % long_nm, 0o600])
     elif kind == 'dir_in_info':
         steps.append(['d', tdir + '/info/' + nm, 0o700])
     elif kind == 'infodir_named_trashinfo':
